@@ -752,11 +752,95 @@ func (w *World) opMul() {
 	}
 }
 
+// opBurst: many in-place updates of ONE point object with no observation in
+// between.  The world looks at every pool point after every step (validity
+// invariant), and every call is executed twice and compared - so an object
+// is never written more than once without being encoded, and state a library
+// keeps beside the coordinates (a revision counter, a cached encoding, a
+// "normalised" flag) is refreshed before it can go stale.  Here the object
+// is optionally encoded first, then written m times - m around the sizes
+// such counters have - and only then compared with the exact model.
+func (w *World) opBurst() {
+	var cands []int
+	for i := range w.points {
+		if w.init[i] {
+			cands = append(cands, i)
+		}
+	}
+	if len(cands) == 0 {
+		return
+	}
+	r := cands[w.t.Choose("ops", "burst.recv", len(cands))]
+	m := []int{2, 3, 7, 8, 9, 15, 16, 17, 31, 32, 33, 63, 64, 65, 127, 128, 129, 255, 256, 257, 511, 512, 513}[w.t.Choose("ops", "burst.m", 23)]
+	kind := w.t.Choose("ops", "burst.kind", 3)
+	other := cands[w.t.Choose("ops", "burst.other", len(cands))]
+	first := w.t.Choose("ops", "burst.first", 4) // which encoder looks at it before the burst, if any
+	p := w.points[r]
+	model := w.mp[r]
+	q, qm := *w.points[other], w.mp[other] // a private copy of the other operand
+	name := []string{"Double", "Add", "Negate"}[kind]
+	po := protect(func() {
+		switch first {
+		case 1:
+			_ = p.UncompressedBytes()
+		case 2:
+			_ = p.CompressedBytes()
+		case 3:
+			_ = p.IsYOdd()
+		}
+		for i := 0; i < m; i++ {
+			switch kind {
+			case 0:
+				p.Double(p)
+			case 1:
+				p.Add(p, &q)
+			default:
+				p.Negate(p)
+			}
+		}
+	})
+	for i := 0; i < m; i++ {
+		switch kind {
+		case 0:
+			model = model.Double()
+		case 1:
+			model = model.Add(qm)
+		default:
+			model = model.Neg()
+		}
+	}
+	desc := fmt.Sprintf("p%d.%s x%d in place, nothing looking at p%d in between (first look: %d)", r, name, m, r, first)
+	w.r.Fault("burst_of_unobserved_in_place_updates")
+	if po.panicked {
+		w.r.Violate("C18", "library-panic", name+":burst", w.step, "%s panicked: %s", desc, po.msg)
+		w.adopt(r, "burst")
+		return
+	}
+	w.mp[r] = model
+	var enc []byte
+	po = protect(func() { enc = p.UncompressedBytes() })
+	w.r.Hist("%d %s -> %x", w.step, desc, enc)
+	if po.panicked {
+		w.r.Violate("C18", "encode-panics", "burst", w.step, "%s: UncompressedBytes panicked: %s", desc, po.msg)
+		return
+	}
+	if !bytes.Equal(enc, model.Uncompressed()) {
+		w.r.Violate("C03", "group-law-mismatch", name+":burst", w.step, "%s: implementation encodes %x, exact affine model %x", desc, enc, model.Uncompressed())
+		w.adopt(r, "burst")
+	}
+}
+
 func (w *World) opMulti() {
 	r := w.pickPoint("recv")
 	n := w.t.Choose("ops", "multi.n", 5)
 	recvAt := 0
-	if w.t.Chance("ops", "multi.large", 1, 10) {
+	if w.t.Chance("ops", "multi.medium", 1, 4) {
+		// every length between the short lists and the long ones (batch
+		// limits, stack-allocated table arrays, window choices by length)
+		n = 5 + w.t.Choose("ops", "multi.mediumn", 28)
+		recvAt = w.t.Choose("ops", "multi.recvat", n)
+		w.r.Probe("multi_medium_list")
+	} else if w.t.Chance("ops", "multi.large", 1, 10) {
 		// a long list (an implementation may batch or take another path
 		// above some size), the receiver possibly anywhere in it
 		n = []int{33, 40, 64, 65, 70, 257, 300}[w.t.Choose("ops", "multi.largen", 7)]
